@@ -200,11 +200,11 @@ def run_scenario(scenario, chooser=None, config_kwargs=None, max_steps=100000,
 
         def user():
             scenario(env)
-        sched.spawn(user, 'user', role='user')
+        user_t = sched.spawn(user, 'user', role='user')
 
         if cancel_at is not None:
             def canceller():
-                sched.block_until(lambda: sched.step >= cancel_at and bool(env.futures), 'cancel point')
+                sched.block_until(lambda: (sched.step >= cancel_at and bool(env.futures)) or user_t.finished, 'cancel point')
                 I.log('inject_cancel', how=cancel_how, at=sched.step)
                 if cancel_how == 'future':
                     for f in list(env.futures.values())[:1]:
